@@ -94,7 +94,7 @@ def write_cfg(path, constants, invariants=(), properties=(), init="Init", nxt="N
         f.write("\n".join(lines) + "\n")
 
 
-def tlc_cmd(module, cfg, metadir, workers, extra=(), xmx="12g", xss=None, deque=False):
+def tlc_cmd(module, cfg, metadir, workers, extra=(), xmx="12g", xss="256m", deque=False):
     jopts = ["-XX:+UseParallelGC", f"-Xmx{xmx}"]
     if xss:
         jopts.append(f"-Xss{xss}")
@@ -139,7 +139,7 @@ def parse_tlc_log(path):
 
 def run_model(tag, module, constants, outdir, invariants=("SpecTheorems", "Emit"), workers=12, timeout=1500,
               harness=None, extra=(), threads=4, view=None, properties=(), constraint=None, simulate=None,
-              xss=None, env_extra=None, max_failures=40):
+              xss="256m", env_extra=None, max_failures=40):
     """Runs `module` under TLC with stdout piped into `harness replay`.
     Returns (tlc_info, summary).  Raises ToolError on tool trouble or a spec-level invariant failure
     (a defect of the machinery, never reported as a code violation)."""
@@ -157,6 +157,8 @@ def run_model(tag, module, constants, outdir, invariants=("SpecTheorems", "Emit"
     cmd = tlc_cmd(os.path.join(SPEC, module), cfg, meta, workers, extra=ex, xss=xss)
     hbin = harness or build_harness()
     env = dict(os.environ)
+    env.setdefault("PRIMS", empty_prims(outdir))
+    env["LENUNIT"] = len_unit()
     if env_extra:
         env.update(env_extra)
     t0 = time.time()
@@ -187,6 +189,56 @@ def run_model(tag, module, constants, outdir, invariants=("SpecTheorems", "Emit"
     log(f"[{tag}] TLC: {info['generated']} states generated, {info['distinct']} distinct; "
         f"{summary['cases']} cases replayed, {summary['failure_count']} deviations, {wall:.1f}s")
     return info, summary
+
+
+def make_prims(tag, outdir, pool=None, extra=None):
+    """Environment-primitive table for a value pool: MC_PoolDump prints the pool, primgen (which does not link
+    evalexpr) computes the native facts.  `extra` adds floats / ints / strings / words to the request."""
+    os.makedirs(outdir, exist_ok=True)
+    req = {"floats": [], "ints": [], "strings": [], "words": []}
+    if pool:
+        cfg = os.path.join(outdir, f"{tag}.pooldump.cfg")
+        write_cfg(cfg, {"PoolName": pool})
+        meta = os.path.join(outdir, f"{tag}.pooldump.tlc")
+        cmd = tlc_cmd(os.path.join(SPEC, "MC_PoolDump.tla"), cfg, meta, 1)
+        r = subprocess.run(["timeout", "120"] + cmd, cwd=SPEC, stdout=subprocess.PIPE, stderr=subprocess.STDOUT, text=True)
+        shutil.rmtree(meta, ignore_errors=True)
+        line = [l for l in r.stdout.splitlines() if l.startswith('"{')]
+        if not line:
+            raise ToolError("MC_PoolDump printed no pool:\n" + r.stdout[-2000:])
+        req = json.loads(json.loads(line[0]))
+    for k, v in (extra or {}).items():
+        req[k] = list(req.get(k, [])) + list(v)
+    reqf = os.path.join(outdir, f"{tag}.primreq.json")
+    outf = os.path.join(outdir, f"{tag}.prims.json")
+    with open(reqf, "w") as f:
+        json.dump(req, f)
+    build_harness()
+    r = subprocess.run([primgen_path(), reqf, outf], stdout=subprocess.PIPE, stderr=subprocess.STDOUT, text=True)
+    if r.returncode != 0:
+        raise ToolError("primgen failed: " + r.stdout[-2000:])
+    return outf
+
+
+_lenunit = None
+
+
+def len_unit():
+    """The indexing unit shared by `len` and `str::substring` is a model parameter (the property claims only
+    their mutual consistency): probed once on the real crate with len("\u00e4")."""
+    global _lenunit
+    if _lenunit is None:
+        r = subprocess.run([build_harness(), "probe-lenunit"], stdout=subprocess.PIPE, text=True)
+        _lenunit = r.stdout.strip() if r.stdout.strip() in ("bytes", "chars") else "bytes"
+    return _lenunit
+
+
+def empty_prims(outdir):
+    os.makedirs(outdir, exist_ok=True)
+    p = os.path.join(outdir, "empty.prims.json")
+    with open(p, "w") as f:
+        f.write('{"fparse": {}}')
+    return p
 
 
 # ------------------------------------------------------------------------------------------------
